@@ -418,7 +418,7 @@ fn run_c16(ctx: &mut Ctx) {
             }
         }
     }
-    let per = tier.pick(100, 600_000, 6_000_000) / ctx.nworkers + 1;
+    let per = tier.pick(100, 12_000_000, 60_000_000) / ctx.nworkers + 1;
     let mut rng = Rng::derive(ctx.seed, 0x1617, ctx.worker as u64);
     for _ in 0..per {
         let ty = rng.below(NTYPES);
@@ -502,7 +502,7 @@ fn run_c17(ctx: &mut Ctx) {
         }
     }
     // seeded long sequences on longer vectors
-    let per = tier.pick(100, 400_000, 4_000_000) / ctx.nworkers + 1;
+    let per = tier.pick(100, 4_000_000, 30_000_000) / ctx.nworkers + 1;
     let mut rng = Rng::derive(ctx.seed, 0x1718, ctx.worker as u64);
     for _ in 0..per {
         let ty = rng.below(NTYPES);
